@@ -35,6 +35,7 @@ def run(ctx, rep):
     rep.rule("channel", "every drain of a container of Error is either preceded by a sort of that container in the same body, or the channel only ever carries constant-message errors")
     rep.rule("inventory", "rayon first-error combinators over parallel iterators are inventoried (their choice among several simultaneous errors is not decided here)")
 
+    _queue_drain_exits(rep, F, P)
     drains, pushes = [], []
     for b in F.all_bodies:
         if not b.key.startswith(("libwild::", "<libwild::")):
@@ -210,3 +211,66 @@ def context_sources(P, F, body, op, depth, seen):
 def _has_runtime_args(flow, op):
     oc = flow.origin_calls(op)
     return any(x.endswith("Arguments::new") or x.endswith("Arguments::new_v1") or x.endswith("Arguments::new_v1_formatted") for x in oc)
+
+
+QUEUE_INTO_ITER = ("<crossbeam_queue::SegQueue as std::iter::IntoIterator>::into_iter", "<crossbeam_queue::ArrayQueue as std::iter::IntoIterator>::into_iter")
+
+
+def _queue_drain_exits(rep, F, P):
+    """A `for x in queue` over a concurrent queue visits elements in arrival order (schedule dependent). Placing each element by its own
+    index or sorting afterwards removes that dependence - leaving the loop early (return / break with the element) does not: which element
+    is seen first depends on which task finished first."""
+    rep.rule("queue-drain-exit", "a loop draining a crossbeam queue (elements in task-completion order) has no early exit: every path from the loop body to the "
+             "function's return goes back through the loop head (panics excepted), so the outcome cannot depend on which element arrived first")
+    n = 0
+    for b in F.all_bodies:
+        if not b.key.startswith(("libwild::", "<libwild::")):
+            continue
+        flow = P.flow(b)
+        srcs = [(bi, t) for bi, t in flow.calls() if (callee_key(t["f"]) or "") in QUEUE_INTO_ITER]
+        if not srcs:
+            continue
+        cfg = P.cfg(b)
+        for sbi, st in srcs:
+            it_local = st["dest"][0]
+            # loop heads: `next` calls whose receiver derives from this iterator
+            heads = []
+            for bi, t in flow.calls():
+                ck = callee_key(t["f"]) or ""
+                if ck.endswith("::next") and t["args"]:
+                    o = flow.origins(t["args"][0])
+                    if any(x[0] == "call" and x[2] == sbi for x in o):
+                        heads.append((bi, t))
+            inst = f"{stable(b.key)}:{re.search(r'(ArrayQueue|SegQueue)', callee_key(st['f'])).group(1)}"
+            if not heads:
+                rep.note(f"{b.key}: queue drained through an adaptor chain (no explicit loop), line {st['l']}")
+                continue
+            for hbi, ht in heads:
+                n += 1
+                # the block that switches on the Option returned by next: Some-target starts the body
+                nxt = ht["to"]
+                sw = None
+                seen = set()
+                cur = nxt
+                while cur is not None and cur not in seen and len(seen) < 6:
+                    seen.add(cur)
+                    tt = b.blocks[cur]["t"]
+                    if tt["k"] == "switch":
+                        sw = cur
+                        break
+                    cur = tt.get("to") if tt["k"] in ("goto", "call") else None
+                if sw is None:
+                    rep.ob("queue-drain-exit", inst + ":shape", False, "could not find the Some/None test after next()", b.file, ht["l"])
+                    continue
+                tt = b.blocks[sw]["t"]
+                some_t = [to for c, to in tt["arms"] if c == 1] or [tt["else"]]
+                body_reach = set()
+                for s0 in some_t:
+                    body_reach |= cfg.reachable_avoiding_edges(s0, set(), avoid_blocks={hbi})
+                early = sorted(x for x in cfg.exits() if x in body_reach)
+                lines = sorted({b.blocks[x]["t"].get("l") for x in early})
+                rep.ob("queue-drain-exit", inst, not early,
+                       "the loop has no early exit" if not early else
+                       f"the loop over the queue can leave the function from inside its body (return reached without going back to the loop head): with several "
+                       f"candidate elements the one that triggers it is the first to *arrive*, which depends on thread scheduling", b.file, ht["l"])
+    rep.floor("queue-drain-exit", "explicit loops over drained concurrent queues", n, 2)
